@@ -152,3 +152,13 @@ Theorem C17_source_impl_bounds :
   bounds_of "Serialize for GenericArray<T,N>" = Some ["N:ArrayLength"; "T:Serialize"] /\
   bounds_of "Deserialize<> for GenericArray<T,N>" = Some ["N:ArrayLength"; "T:Deserialize<>"].
 Proof. repeat split. Qed.
+
+(* what a rejection says it expected: the array type with its length (regenerated) *)
+Theorem C17_source_expecting :
+  thin_of "Visitor<> for GAVisitor<T,N>" "expecting" = Some "write ! (formatter , ""struct GenericArray<T, U{}>"" , N :: USIZE)".
+Proof. reflexivity. Qed.
+
+(* the surplus probe deserialises a unit-like Dummy that accepts anything without looking at it (regenerated) *)
+Theorem C17_source_dummy :
+  thin_of "Deserialize<> for Dummy" "deserialize" = Some "Ok (Dummy)".
+Proof. reflexivity. Qed.
